@@ -121,6 +121,9 @@ func c31Unary(r *vx.Run, s histmodel.Shape) {
 			if d := histmodel.Diff(s.Model, got, 0); d != "" || got.Hint != s.Model.Hint {
 				r.Violation("tofloat-changes-histogram", fmt.Sprintf("%s (reused target=%v): %s; hint %d vs %d\nmodel %v\ngot   %v", s.Name, k == 1, d, s.Model.Hint, got.Hint, s.Model, got), rp("tofloat", k))
 			}
+			if err := fh.Validate(); err != nil {
+				r.Violation("tofloat-invalid-result", fmt.Sprintf("%s (reused target=%v): result of ToFloat on a valid histogram does not validate: %v", s.Name, k == 1, err), rp("tofloat", k))
+			}
 			if !in.Equals(s.Int) {
 				r.Violation("tofloat-mutates-receiver", s.Name, rp("tofloat", k))
 			}
@@ -547,6 +550,9 @@ func TestVerifC31(t *testing.T) {
 		return
 	}
 	c31SelfTest(t, histmodel.ShapesAll())
+	r.Assume("lib/histmodel (decode, alignment, bucket-wise add/sub, reset rule) is the trusted reference, written from the statement and the type documentation")
+	r.Assume("a fixed catalogue of shapes stands for 'generated valid histograms'; zero thresholds are powers of two, 1.5 or 0.001 (never within rounding distance of an irrational bucket boundary)")
+	r.Assume("counter-reset hints of Add/Sub results (adjustCounterReset) are not part of the statement and not checked; DetectReset's CounterReset/NotCounterReset shortcuts are taken from its documentation")
 
 	all := histmodel.ShapesAll() // single-histogram operations are cheap: every layout in every tier
 	r.ParallelN(int64(len(all)), func(i int64) { c31Unary(r, all[i]) })
